@@ -199,15 +199,20 @@ def _build(case):
     nt, dt = case["axis"]
     ta = systems.time_axis(nt, dt)
     en, Jm = _energies(case), _coupling(case)
+    # common ground-state energy of the molecules (transition energies unchanged): rates are
+    # functions of energy differences only
+    e0 = float(case.get("e0", 0.0))
+    if e0:
+        en = [e + e0 for e in en]
     if case["route"] == "aggregate":
-        agg = systems.aggregate(en, Jm, bath=_bath_specs(case), ta=ta)
+        agg = systems.aggregate(en, Jm, bath=_bath_specs(case), ta=ta, e0=e0)
         ham = agg.get_Hamiltonian()
         sbi = agg.get_SystemBathInteraction()
         return ta, ham, sbi, agg
     if case["route"] == "sd":
         ham, sbi = _ham_sbi_from_sd(en, Jm, _baths(case), case["T"], ta)
         return ta, ham, sbi, None
-    ham, sbi = systems.ham_sbi(en, Jm, _bath_specs(case), ta)
+    ham, sbi = systems.ham_sbi(en, Jm, _bath_specs(case), ta, e0=e0)
     return ta, ham, sbi, None
 
 
@@ -332,7 +337,7 @@ def eval_system(case):
             dat = numpy.array(RT.data)
             ediag = numpy.real(numpy.diag(hh.data)).copy()
         # the eigenbasis used by the context must be the ascending one of the model
-        if not numpy.allclose(ediag[1:], ev, rtol=0, atol=1e-9):
+        if not numpy.allclose(ediag[1:] - ediag[0], ev, rtol=0, atol=1e-9):
             viol.append(("redfield-tensor/eigenbasis-order/%s" % rname,
                          "eigenbasis_of(ham) energies %s differ from eigh %s"
                          % (ediag[1:], ev), None))
@@ -586,13 +591,13 @@ def system_cases(tier):
                "Jpat": ["chain", "full"], "bathpat": ["same", "graded"],
                "J": [0.0, 30.0, 100.0, -80.0], "gap": [0.0, 100.0, 300.0],
                "lam": [10.0, 40.0], "tau": [50.0, 100.0], "T": [300.0, 77.0],
-               "axis": [[1500, 1.0], [3000, 0.5]]}
+               "axis": [[1500, 1.0], [3000, 0.5]], "e0": [0.0, 150.0]}
     else:
         dom = {"section": ["system"], "route": ["ham_sbi", "sd", "aggregate"], "n": [2, 3, 4],
                "Jpat": ["chain", "full"], "bathpat": ["same", "graded"],
                "J": [0.0, 30.0, 100.0, -80.0], "gap": [0.0, 100.0, 300.0],
                "lam": [10.0, 40.0], "tau": [50.0, 100.0], "T": [300.0, 150.0, 77.0],
-               "axis": [[1500, 1.0], [3000, 0.5], [4000, 1.0]]}
+               "axis": [[1500, 1.0], [3000, 0.5], [4000, 1.0]], "e0": [0.0, 150.0, -300.0]}
 
     def ok(c):
         if c["n"] == 2 and c["Jpat"] == "full":
@@ -604,6 +609,9 @@ def system_cases(tier):
             return False                       # uncoupled: one representative per size
         if tier == "quick" and c["route"] != "ham_sbi" and c["n"] == 3:
             return False                       # quick: 3 sites on the plain route only
+        if c["e0"] != 0.0 and (c["route"] == "sd" or c["axis"][0] != 1500 or c["tau"] != 50.0
+                               or c["lam"] != 10.0 or c["J"] not in (0.0, 30.0)):
+            return False                       # ground-state offsets: on one grid and bath
         if tier == "quick" and c["Jpat"] == "full" and (c["axis"][0] != 1500 or c["tau"] != 50.0):
             return False                       # quick: the general coupling pattern on one grid
         return admissible(c)
